@@ -224,6 +224,10 @@ def run(ck):
     ck.floor("SIB/ref-writes", refwrites.check(ck, P, "SIB/ref-writes", only={"deflate.c:deflateParams", "deflate.c:deflateTune",
              "deflate.c:deflatePrime", "inflate.c:inflatePrime", "inflate.c:inflateSync", "deflate.c:deflateSetDictionary",
              "inflate.c:inflateSetDictionary", "deflate.c:deflateResetKeep", "inflate.c:inflateResetKeep", "inflate.c:inflateReset2"}), 30)
+    from .. import guards as _g
+    _g.finished_early_return(ck, P)
+    _g.prime_room(ck, P)
+    _g.published_reset(ck, P)
     # a requested leave (Z_BLOCK / Z_TREES) that loses its place makes the next call return a status zlib-ng does not
     from . import c04 as _c04
     _c04.voluntary_leave(ck, P)
